@@ -6,6 +6,12 @@ ALL = ["C%02d" % i for i in range(1, 37)]
 
 # id -> (design section, technique, level text, level note)
 CLAIMED = {
+ "C35": ("§2 C35", "who-may-call over the module's reference graph for file-mutating os functions; CFG edge-cut domination for the Lstat/IsRegular guard; dominance ordering (fsync, close, rename) and must-pass-through (cleanup) in the pinned renameio dependency",
+  "Decides that the only way shfmt modifies a path is the rename-based writer; that this call is dominated by a regular-file test on os.Lstat (not Stat) of the same path and writes that FileInfo's permission bits; and that in the pinned dependency the data goes to a temporary file removed on every incomplete exit, with fsync before close before rename on every path. Any additional write path, a Stat instead of Lstat, or a reordering in the dependency is a single failing obligation, whatever the kill point.",
+  "Trusts rename(2) atomicity and fsync semantics; analysed for the unix build of renameio (its non-unix fallback is a plain write, as the source itself notes). Does not explore kill points."),
+ "C36": ("§2 C36", "call-site enumeration (single funnel), CFG edge-cut domination by the one comparison, dominance ordering of buffer reset/print/compare, post-dominance of option applications, sibling agreement of option sets and language derivation",
+  "Decides that stdin and file formatting share one formatBytes and that parsing, printing and simplifying happen only there; that list output, write, diff and the 'differs' status all hang off one comparison of the source with the printer's output while the plain stdout write does not, and that the bytes compared, written and diffed are the same values; that EditorConfig-derived options are applied unconditionally per file with the same printer option set as the flags, the variant is set before Parse on every path, and stdin and files derive the language from the same steps.",
+  "Does not decide that the diff applies, nor EditorConfig lookup equality between a path and the -filename used for stdin."),
  "C11": ("§2 C11", "CFG must-pass-through with computed always-erroring functions; constant folding of variant sets; interprocedural forward dataflow of possible language variants and possible current tokens (least fixpoint over call sites, token production sites and per-value return summaries)",
   "Decides all three clauses structurally. Recovery: after every recoverError() that returns false, every path to the exit reports an error, so accepted inputs never reach a recovery site and parse identically with recovery on. Bash/Bats: every variant set tested anywhere in package syntax contains LangBash and LangBats together or neither (one designed exception, @test, is a listed known finding). POSIX gating: an interprocedural analysis computes, for every point of the parser, the variants under which it is reachable by a still-accepted input; every construction site of a non-POSIX node type, field or operator must exclude LangPOSIX. The analysis found three ungated sites on the pinned tree (two repaired by fix: commits, array syntax in POSIX mode listed as known findings).",
   "Sound relative to: variant tests happen only through in(), checkLang() and direct comparison (enumerated); errPass makes the parse fail; the table of non-POSIX constructs (node documentation plus an explicit field/operator table in the checker). Operators inside arithmetic that the parser gates nowhere are outside the table. Does not decide that Bash and Bats trees are equal beyond taking the same branches."),
